@@ -176,6 +176,12 @@ func oneCase(rt *rapid.T, opName, stop string) (fail string, labels []string) {
 			r.Send(ref.Msg{Kind: ref.KInterest})
 		}
 	}
+	// remotes that go away while storrent is still writing its first messages
+	for i, nf := 0, rapid.IntRange(0, 2).Draw(rt, "flashPeers"); i < nf; i++ {
+		if r, err := x.Connect(sim.Caps{Fast: i == 0, Extended: true, DHT: i == 1}, 50+i, false); err == nil {
+			r.Close()
+		}
+	}
 	// background readers: one blocked on the absent piece, one idle
 	nr := rapid.IntRange(0, 2).Draw(rt, "readers")
 	type rres struct {
